@@ -49,6 +49,21 @@ Second-wave additions (docs/STRENGTHEN.md): a threshold-order alphabet (orders 1
 points of factorial / Gamma), a coordinate-dtype alphabet x both config.precision settings, mixed
 dtypes and open (broadcastable) grids for the two-coordinate families, and the output dtype of the
 sequence must be the common dtype of the scalar results (exemptions listed in DTYPE_EXEMPT).
+
+Wave-8 additions (docs/STRENGTHEN8.md):
+  order_forms / pair_forms -- the *form* in which the orders are handed over (the statement says "a whole ascending list of orders",
+      not "a Python list"): tuple, range (unit step and stepped), integer ndarrays of every signed / unsigned width, lists of NumPy
+      integer scalars and of 0-d arrays; for the two-index families lists of lists, tuples of tuples, (k, 2) integer ndarrays, lists
+      of 1-D arrays, pairs of NumPy integers.  A form is in the domain iff HEAD answers it exactly as it answers the list (measured:
+      all of the above; float-valued orders raise TypeError in every family but zernike_nm_der_seq and are not enumerated, neither
+      are one-shot iterators -- generators, zip -- which several families reject).  Signature cell ``orders=<form>[:gapped]``.
+  large_coords -- coordinate-size threshold alphabet (blocked / chunked sweeps that drop the tail): sizes just above a power of
+      two, 2^7 .. 2^16 (1-D), 2-D / 3-D shapes up to 257x1030 and one > 2^20-element grid, every element judged.  Signature cell
+      ``large:<ndim>d``.  NOT closed over the data dimension (a finite list of sizes).
+  par_forms -- the shape parameters alpha / beta as Python float / int, NumPy float and (un)signed integer scalars, 0-d arrays.
+  many_orders / many_pairs -- mode-count thresholds (>= 129 modes in one request), same oracle, through run_one / run_two.
+  Worst honest err/tol on HEAD, seeds 0..3: order_forms 0, pair_forms 0.0022, par_forms 0, large_coords 0.0021, many_orders 0,
+  many_pairs 0.0018 (same TOL_K).  These alphabet units run BEFORE the subset-exhaustive units (see plan()).
 """
 import itertools
 
@@ -144,7 +159,13 @@ ASSUMPTIONS = [
     'whether the scalar functions are the textbook polynomials is C07/C09',
     'xy / xy_seq with cartesian_grid=True are exercised only on 2-D meshgrid coordinates, the precondition that flag asserts '
     '(on 0-D/1-D/3-D input xy() forms an outer product and xy_seq() does not; with cartesian_grid=False every shape is exercised)',
-    'orders are passed as Python lists of int, (n, m) pairs as lists of tuples',
+    'orders are passed as Python lists of int and (n, m) pairs as lists of tuples in the subset-exhaustive units; the other generator-free forms '
+    '(tuple, range with any positive step, integer ndarrays int8..int64 / uint8..uint64, lists of NumPy integer scalars or 0-d arrays; lists of lists, '
+    'tuples of tuples, (k,2) integer ndarrays, lists of 1-D arrays) are an alphabet crossed with a fixed list of order requests (units order_forms, pair_forms); '
+    'float-valued orders and one-shot iterators (generators, zip) are outside the domain: HEAD raises TypeError for them in most families',
+    'the shape parameters (alpha, beta) are passed as the JSON int / float values in the subset-exhaustive units; Python float / int, np.float64 / float32, '
+    'np.int64 / int8 / uint8 / uint64 and 0-d arrays are an alphabet (unit par_forms); jacobi / jacobi_seq raise TypeError for 0-d array parameters (lru_cache key)',
+    'the coordinate-size alphabet (unit large_coords) and the mode-count alphabet (unit many_orders) are finite lists of sizes, not closed over the data dimension',
     'the threshold-order, dtype/precision and mixed-dtype/open-grid units are alphabets (finite lists), not closed over subsets of orders',
     'integer (int64) coordinates are enumerated for every family whose scalar function accepts them: all one-index families, xy and Q2d; '
     'zernike_nm / zernike_nm_der raise on integer r (in-place float update of an integer array), so the Zernike sequences have no integer oracle',
@@ -555,6 +576,10 @@ def plan(tier, seed):
     subs = subsets(B)
     units = [ScopeUnit('inventory', [{'inventory': 'prysm.polynomials'}], run_inventory,
                        'one case: the set of *_seq callables found in prysm.polynomials and its submodules equals the set of functions enumerated below')]
+    # the alphabet units (finite lists, cheap) run before the subset-exhaustive units: most defect classes per CPU second first,
+    # so that a wall-clock cap on a loaded machine cuts the tail of the big enumerations rather than whole classes
+    units.extend(wave8(tier))
+    units.extend(second_wave(tier))
     shapes_txt = '{(5,) with end points, (), (1,), (k,), (3,4), (4,3), (k,4), (4,k), (2,3,2)} (k = number of orders) x {float64, float32}'
     for uname, names in UNITS_ONE:
         cases = [{'f': n, 'par': par, 'ns': ns} for ns in subs for n in names for par in ONE[n][2]]
@@ -574,7 +599,6 @@ def plan(tier, seed):
             f' ({len(lists)} lists) x {kwname}={variants}; inside each case every coordinate shape {shapes_txt}'
             + (' (cartesian_grid=True: the four 2-D shapes as true meshgrids)' if name == 'xy_seq' else '')
             + '; non-trivial when a pair other than (0,0) is requested', reset=reset_poly_caches, chunk=CHUNK))
-    units.extend(second_wave(tier))
     return units
 
 
@@ -626,4 +650,385 @@ def second_wave(tier):
                   'two-coordinate families x config.precision {64, 32} x lists {each pool pair alone, the sorted pool, two 3-lists}: the two coordinate arrays '
                   f'differ in dtype {mix} (' + ', '.join(sorted(INT_PAIRS)) + f' also {mix_int}, xy_seq also {mix_xy[6:]}) on (5,) and (3,4) coordinates, and for '
                   + ', '.join(sorted(OPEN_GRID)) + ' open grids x|r (1,4) / y|t (3,1); expected shape = broadcast shape, values and dtype as the scalar function', reset=reset_poly_caches, chunk=CHUNK),
+    ]
+
+
+# ---------------------------------------------------------------------------------------------
+# wave 8 (docs/STRENGTHEN8.md): argument forms of the order list, coordinate-size thresholds, mode-count thresholds
+
+INT_DTYPES = ['int8', 'int16', 'int32', 'int64', 'uint8', 'uint16', 'uint32', 'uint64']
+# arithmetic progressions (start, stop, step) -- the only requests a range can express -- and two irregular ascending lists
+ORDER_REQS = [[0, 5, 1], [2, 7, 1], [0, 1, 1], [1, 2, 1], [4, 5, 1], [1, 10, 2], [0, 9, 2], [3, 16, 3], [1, 9, 3], [0, 12, 11]]
+ORDER_LISTS = [[0, 1, 4], [2, 3, 7, 8]]
+
+
+def order_forms(ns, req):
+    """-> ordered {form name: argument object}; 'list' (the form of the subset units) first as the baseline."""
+    out = {'list': list(ns), 'tuple': tuple(ns)}
+    if req is not None:
+        out['range'] = range(*req)
+    for dt in INT_DTYPES:
+        out[f'ndarray:{dt}'] = np.asarray(ns, dtype=dt)
+    for dt in INT_DTYPES:
+        out[f'list:np.{dt}'] = [np.dtype(dt).type(n) for n in ns]
+    out['list:0d-int64'] = [np.asarray(n, dtype=np.int64) for n in ns]
+    out['list:0d-uint8'] = [np.asarray(n, dtype=np.uint8) for n in ns]
+    return out
+
+
+# unsigned (n, m): in the domain only where the SCALAR function accepts unsigned indices (measured on HEAD).  Q2d raises OverflowError for them
+# ('Python integer -2 out of bounds for uint8'), xy raises for uint64 (uint64 + int -> float64 exponent), and zernike_nm_der negates m
+# ('dt = -m * np.sin(m*t)'), which wraps around for an unsigned NumPy scalar -- the sequence functions do exactly the same as their scalar
+# functions there, so C08 has nothing to say (the wrap-around in zernike_nm_der is reported as a candidate defect of the scalar function).
+PAIR_UNSIGNED = {'zernike_nm_seq': INT_DTYPES[4:], 'zernike_nm_der_seq': [], 'Q2d_seq': [], 'xy_seq': ['uint8', 'uint16', 'uint32']}
+
+
+def pair_forms(nms, name):
+    """Forms of a list of (n, m) pairs; unsigned types only when no index is negative and the scalar function accepts them."""
+    nms = [tuple(p) for p in nms]
+    out = {'list:tuple': list(nms), 'list:list': [list(p) for p in nms], 'tuple:tuple': tuple(nms), 'tuple:list': tuple(list(p) for p in nms),
+           'list:ndarray': [np.asarray(p, dtype=np.int64) for p in nms]}
+    dts = INT_DTYPES[:4] + (PAIR_UNSIGNED[name] if all(v >= 0 for p in nms for v in p) else [])
+    for dt in dts:
+        out[f'ndarray:{dt}'] = np.asarray(nms, dtype=dt).reshape(len(nms), 2)
+    for dt in dts:
+        out[f'list:np.{dt}'] = [tuple(np.dtype(dt).type(v) for v in p) for p in nms]
+    return out
+
+
+# forms of the shape parameters (alpha, beta): the value v of the case (JSON int or float) handed over as ...
+def _intval(v):
+    return float(v).is_integer()
+
+
+PAR_FORMS = {
+    'float': lambda v: float(v),
+    'int': lambda v: int(v) if _intval(v) else None,
+    'np.float64': lambda v: np.float64(v),
+    'np.float32': lambda v: np.float32(v),          # every value of the alphabet is exactly representable
+    'np.int64': lambda v: np.int64(v) if _intval(v) else None,
+    'np.int8': lambda v: np.int8(v) if _intval(v) else None,
+    'np.uint8': lambda v: np.uint8(v) if _intval(v) and v >= 0 else None,
+    'np.uint64': lambda v: np.uint64(v) if _intval(v) and v >= 0 else None,
+    '0d:float64': lambda v: np.asarray(float(v)),
+    '0d:int64': lambda v: np.asarray(int(v)) if _intval(v) else None,
+    '0d:uint8': lambda v: np.asarray(int(v), dtype=np.uint8) if _intval(v) and v >= 0 else None,
+}
+# jacobi / jacobi_seq hash (alpha, beta) for an lru_cache: 0-d arrays raise TypeError in the scalar function as well -- outside the domain
+PAR_FORMS_EXCLUDED = {'jacobi_seq': ('0d:float64', '0d:int64', '0d:uint8')}
+PAR_VALUES = {
+    'jacobi_seq': J3 + [[0, 0], [1, 0], [2, 3]], 'jacobi_der_seq': J3 + [[0, 0], [1, 0], [2, 3]],
+    'laguerre_seq': [[0], [0.5], [2], [1]], 'laguerre_der_seq': [[0], [0.5], [2], [1]],
+    'dickson1_seq': [[-1], [0], [0.5], [1], [2]], 'dickson2_seq': [[-1], [0], [0.5], [1], [2]],
+}
+
+
+def run_par_forms(case, seed, R):
+    """case: f, par, ns.  The shape parameters in every scalar form; oracle = scalar-order function with the plain JSON values."""
+    name, par, ns = case['f'], case['par'], case['ns']
+    sname, (lo, hi), _ = ONE[name]
+    fseq, fsca = getattr(P, name, None), getattr(P, sname, None)
+    if not R.expect(callable(fseq) and callable(fsca), f'{name}:missing', f'{name} / {sname} not exported by prysm.polynomials'):
+        return
+    ref_scale = None
+    for shape in ((5,), (3, 4)):
+        x = coords(shape, seed, 11, lo, hi, 'float64')
+        outs = [R.call(fsca, n, *par, x.copy(), sig=f'{sname}:raises') for n in ns]
+        want = stack_scalar(R, outs, shape, sname)
+        if want is None:
+            continue
+        if ref_scale is None:
+            ref_scale = own_scales(want)
+        for form, mk in PAR_FORMS.items():
+            if form in PAR_FORMS_EXCLUDED.get(name, ()):
+                continue
+            fp = [mk(v) for v in par]
+            if any(v is None for v in fp):
+                continue
+            xin = x.copy()
+            got = R.call(fseq, list(ns), *fp, xin, sig=f'{name}:raises')
+            exc = _refile(R, got)
+            R.checks += 1
+            if got is FAILED:
+                ok, msg = False, exc
+            else:
+                ok, bad, msg = compare(got, want, eps_of('float32' if form == 'np.float32' else 'float64'), ns, ref=ref_scale)
+                observe(R, got)
+            if not ok:
+                R.violation(f'{name}:par={form}', f'{name}({list(ns)}, <{form}> {fp!r}, x{list(shape)} float64) vs {sname}({", ".join(map(str, par))}): {msg}')
+            R.expect(np.array_equal(xin, x), f'{name}:input-mutated', f'{name} modified its coordinate array (shape {shape})')
+    dedupe(R)
+    R.nontrivial(any(n >= 1 for n in ns))
+    R.outcome('int-valued' if all(_intval(v) for v in par) else 'fractional')
+
+
+def _refile(R, got):
+    """The message of the exception R.call has just filed (it is re-filed under the cell signature)."""
+    return R.violations.pop()['msg'] if got is FAILED else None
+
+
+def run_forms(case, seed, R):
+    """case: f, par, req=[start, stop, step] | ns.  Every form of the same orders must give what the scalar function gives."""
+    name, par = case['f'], case['par']
+    req = case.get('req')
+    ns = list(range(*req)) if req is not None else list(case['ns'])
+    sname, (lo, hi), _ = ONE[name]
+    fseq, fsca = getattr(P, name, None), getattr(P, sname, None)
+    if not R.expect(callable(fseq) and callable(fsca), f'{name}:missing', f'{name} / {sname} not exported by prysm.polynomials'):
+        return
+    k = len(ns)
+    gap = ':gapped' if any(b - a != 1 for a, b in zip(ns, ns[1:])) else ''
+    eps = eps_of('float64')
+    ref_scale = None
+    shapes = []
+    for sh in ((5,), (), (k, 4)):
+        if sh not in shapes:
+            shapes.append(sh)
+    for shape in shapes:
+        x = coords(shape, seed, 11, lo, hi, 'float64')
+        outs = [R.call(fsca, n, *par, x.copy(), sig=f'{sname}:raises') for n in ns]
+        want = stack_scalar(R, outs, shape, sname)
+        if want is None:
+            continue
+        if ref_scale is None:
+            ref_scale = own_scales(want)
+        for form, arg in order_forms(ns, req).items():
+            xin = x.copy()
+            got = R.call(fseq, arg, *par, xin, sig=f'{name}:raises')
+            exc = _refile(R, got)
+            R.checks += 1
+            if got is FAILED:
+                ok, msg = False, exc
+            else:
+                ok, bad, msg = compare(got, want, eps, ns, ref=ref_scale)
+                observe(R, got)
+            if not ok:
+                cell = order_cell(ns) if form == 'list' else f'orders={form}{gap}'
+                R.violation(f'{name}:{cell}', f'{name}(<{form}> {arg!r}, {", ".join(map(str, par))}{", " if par else ""}x{list(shape)} float64) vs {sname} at {ns}: {msg}')
+                if form == 'list':
+                    break       # about the orders themselves (the subset units' finding), not about the form
+            R.expect(np.array_equal(xin, x), f'{name}:input-mutated', f'{name} modified its coordinate array (shape {shape})')
+    dedupe(R)
+    R.nontrivial(any(n >= 1 for n in ns))
+    R.outcome('range-stepped' if req is not None and req[2] != 1 else ('range-unit' if req is not None else 'irregular'))
+
+
+def want_two(R, name, sname, fsca, nms, a, b, kw, shape, broadcast):
+    outs = [R.call(fsca, p[0], p[1], a.copy(), b.copy(), sig=f'{sname}:raises', **kw) for p in nms]
+    if name == 'zernike_nm_der_seq':
+        try:
+            outs = [o if o is FAILED else np.stack([np.asarray(o[0]), np.asarray(o[1])]) for o in outs]
+        except Exception as e:   # noqa
+            R.violation(f'{sname}:shape', f'{sname} did not return a (dr, dt) pair of equal shapes: {type(e).__name__}: {e}')
+            return None
+        return stack_scalar(R, outs, (2, *shape), sname)
+    return stack_scalar(R, outs, shape, sname, broadcast=broadcast)
+
+
+def two_cond(name, nms, b):
+    tmax = float(np.max(np.abs(b))) if b.size else 0.0
+    cond = None if name == 'xy_seq' else [1.0 + abs(p[1]) * tmax for p in nms]
+    orders = [p[0] + p[1] for p in nms] if name == 'xy_seq' else [p[0] for p in nms]
+    return orders, cond
+
+
+def run_pair_forms(case, seed, R):
+    """case: f, var, nms.  Every form of the same (n, m) list must give what the scalar function gives."""
+    name, var, nms = case['f'], case['var'], [tuple(p) for p in case['nms']]
+    sname, kwname, _, _, _ = TWO[name]
+    fseq, fsca = getattr(P, name, None), getattr(P, sname, None)
+    if not R.expect(callable(fseq) and callable(fsca), f'{name}:missing', f'{name} / {sname} not exported by prysm.polynomials'):
+        return
+    kw = {} if kwname is None else {kwname: var}
+    k = len(nms)
+    grid_only = name == 'xy_seq' and var is True
+    eps = eps_of('float64')
+    ref_scale = None
+    for sa in ([(3, 4), (k, 4)] if grid_only else [(5,), (3, 4), (k, 4)]):
+        a, b = two_coords(name, grid_only, sa, sa, 'float64', 'float64', seed)
+        want = want_two(R, name, sname, fsca, nms, a, b, kw, sa, False)
+        if want is None:
+            continue
+        if ref_scale is None:
+            ref_scale = own_scales(want)
+        orders, cond = two_cond(name, nms, b)
+        for form, arg in pair_forms(nms, name).items():
+            ain, bin_ = a.copy(), b.copy()
+            got = R.call(fseq, arg, ain, bin_, sig=f'{name}:raises', **kw)
+            exc = _refile(R, got)
+            R.checks += 1
+            bad = None
+            if got is FAILED:
+                ok, msg = False, exc
+            else:
+                ok, bad, msg = compare(got, want, eps, orders, cond, ref=ref_scale)
+                observe(R, got)
+            if not ok:
+                cell = '+'.join(sorted({mode_cell(name, nms[j]) for j in (bad if bad else range(k))})) if form == 'list:tuple' else f'orders={form}'
+                vs = '' if kwname is None else f', {kwname}={var}'
+                R.violation(f'{name}:{cell}', f'{name}(<{form}> {arg!r}, coords {list(sa)} float64{vs}) vs {sname} at {nms}: {msg}')
+                if form == 'list:tuple':
+                    break
+            R.expect(np.array_equal(ain, a) and np.array_equal(bin_, b), f'{name}:input-mutated', f'{name} modified its coordinate arrays (shape {sa})')
+    dedupe(R)
+    R.nontrivial(any(p != (0, 0) for p in nms))
+    R.outcome('single' if k == 1 else ('repeat' if len(set(nms)) < k else 'distinct'))
+
+
+# coordinate sizes just above a power of two and not a multiple of it: 2^k + 1 and 2^k + 2^(k-1) + 3
+LARGE_1D = [[(1 << k) + 1] for k in range(7, 17)] + [[(1 << k) + (1 << (k - 1)) + 3] for k in range(7, 17)]
+LARGE_ND = [[129, 3], [150, 150], [181, 182], [300, 300], [257, 1030], [3, 181, 67]]
+LARGE_FRAME = [[1031, 1021]]          # > 2^20 elements: polynomial modes over a 1k x 1k pupil are routine
+LARGE_HYGIENE = 1 << 16               # the hygiene variants (6 more evaluations per call) run up to this many elements
+LARGE_NS = {1: [0, 2, 5], 2: [1, 3, 4], 3: [0, 1, 3]}          # by ndim of the coordinate array
+LARGE_NMS = {'zernike_nm_seq': [[2, 0], [3, 1], [2, -2], [4, 2]], 'zernike_nm_der_seq': [[2, 0], [3, 1], [2, -2], [4, 2]],
+             'Q2d_seq': [[2, 0], [2, 1], [3, -2], [0, -3]], 'xy_seq': [[0, 0], [2, 1], [0, 3], [3, 3]]}
+
+
+def run_large(case, seed, R):
+    """case: f, shape, (par, ns) | (var, nms), hy.  One float64 coordinate array of the given shape, every element judged."""
+    name, shape = case['f'], tuple(case['shape'])
+    hy = bool(case.get('hy', 1))
+    cell = f'large:{len(shape)}d'
+    if name in ONE:
+        sname, (lo, hi), _ = ONE[name]
+        fseq, fsca = getattr(P, name, None), getattr(P, sname, None)
+        if not R.expect(callable(fseq) and callable(fsca), f'{name}:missing', f'{name} / {sname} not exported by prysm.polynomials'):
+            return
+        par, ns = case['par'], case['ns']
+        x = coords(shape, seed, 31, lo, hi, 'float64')
+        xin = x.copy()
+        got = R.call(fseq, list(ns), *par, xin, sig=f'{name}:raises', hygiene=hy)
+        exc = _refile(R, got)
+        outs = [R.call(fsca, n, *par, x.copy(), sig=f'{sname}:raises', hygiene=False) for n in ns]
+        want = stack_scalar(R, outs, shape, sname)
+        orders, cond = ns, None
+        unchanged = np.array_equal(xin, x)
+        what = f'{name}({list(ns)}, {", ".join(map(str, par))}{", " if par else ""}x{list(shape)} float64)'
+        R.nontrivial(any(n >= 1 for n in ns))
+    else:
+        sname, kwname, _, _, _ = TWO[name]
+        fseq, fsca = getattr(P, name, None), getattr(P, sname, None)
+        if not R.expect(callable(fseq) and callable(fsca), f'{name}:missing', f'{name} / {sname} not exported by prysm.polynomials'):
+            return
+        var, nms = case['var'], [tuple(p) for p in case['nms']]
+        kw = {} if kwname is None else {kwname: var}
+        a, b = two_coords(name, name == 'xy_seq' and var is True, shape, shape, 'float64', 'float64', seed)
+        ain, bin_ = a.copy(), b.copy()
+        got = R.call(fseq, list(nms), ain, bin_, sig=f'{name}:raises', hygiene=hy, **kw)
+        exc = _refile(R, got)
+        outs = [R.call(fsca, p[0], p[1], a.copy(), b.copy(), sig=f'{sname}:raises', hygiene=False, **kw) for p in nms]
+        if name == 'zernike_nm_der_seq':
+            try:
+                outs = [o if o is FAILED else np.stack([np.asarray(o[0]), np.asarray(o[1])]) for o in outs]
+                want = stack_scalar(R, outs, (2, *shape), sname)
+            except Exception as e:   # noqa
+                R.violation(f'{sname}:shape', f'{sname} did not return a (dr, dt) pair of equal shapes: {type(e).__name__}: {e}')
+                want = None
+        else:
+            want = stack_scalar(R, outs, shape, sname)
+        orders, cond = two_cond(name, nms, b)
+        unchanged = np.array_equal(ain, a) and np.array_equal(bin_, b)
+        what = f'{name}({list(nms)}, coords {list(shape)} float64' + ('' if kwname is None else f', {kwname}={var}') + ')'
+        R.nontrivial(any(p != (0, 0) for p in nms))
+    if want is None:
+        if exc is not None:
+            R.violation(f'{name}:raises', exc)
+        return
+    R.checks += 1
+    if got is FAILED:
+        ok, msg = False, exc
+    else:
+        ok, bad, msg = compare(got, want, eps_of('float64'), orders, cond)
+        if ok is False and bad:
+            # where the wrong elements are (a dropped tail shows as the last elements, C order)
+            try:
+                g, j = np.asarray(got), bad[0]
+                idx = np.flatnonzero(~np.isclose(g[j].ravel(), want[j].ravel(), rtol=1e-6, atol=1e-9, equal_nan=True))
+                msg += f'; mode {j}: {idx.size} of {want[j].size} elements wrong, flat indices {int(idx[0])}..{int(idx[-1])}' if idx.size else ''
+            except Exception:   # noqa
+                pass
+        observe(R, got)
+    if not ok:
+        R.violation(f'{name}:{cell}', f'{what} vs {sname}: {msg}')
+    R.expect(unchanged, f'{name}:input-mutated', f'{name} modified its coordinate array(s) (shape {shape})')
+    dedupe(R)
+    n_el = int(np.prod(shape))
+    R.outcome('>2^20' if n_el > (1 << 20) else ('>2^15' if n_el > (1 << 15) else ('>2^11' if n_el > (1 << 11) else '<=2^11')))
+
+
+def wave8(tier):
+    # (1) forms of the order list, one-index families: every family x every parameter value x requests x forms (inside the case)
+    form_cases = [{'f': n, 'par': par, 'req': req} for req in ORDER_REQS for n in ONE for par in ONE[n][2]]
+    form_cases += [{'f': n, 'par': par, 'ns': ns} for ns in ORDER_LISTS for n in ONE for par in ONE[n][2]]
+    # (2) forms of the (n, m) list
+    pair_cases = []
+    for name, (sname, kwname, variants, pool, extra) in TWO.items():
+        srt = sorted(pool, key=lambda p: (p[0], p[1]))
+        lists = [[pool[3]], [pool[8]], srt, srt[::-1], [pool[5], pool[5], pool[2]], [p for p in pool if p[1] >= 0]]
+        for nms in lists:
+            for v in variants:
+                pair_cases.append({'f': name, 'var': v, 'nms': nms})
+    par_cases = [{'f': n, 'par': par, 'ns': ns} for ns in DTYPE_ORDERS for n in PAR_VALUES for par in PAR_VALUES[n]]
+    # (3) coordinate-size thresholds
+    sizes = LARGE_1D + LARGE_ND + LARGE_FRAME
+    if tier != 'quick':
+        sizes = sizes + [[(1 << k) + 1] for k in range(17, 21)] + [[513, 2051], [2049, 1027]]
+    large_cases = []
+    for sh in sizes:
+        hy = 1 if int(np.prod(sh)) <= LARGE_HYGIENE else 0
+        frame = int(np.prod(sh)) > (1 << 20)         # two modes only: cost
+        for n in ONE:
+            large_cases.append({'f': n, 'par': ONE[n][2][-1], 'ns': [1, 3] if frame else LARGE_NS[len(sh)], 'shape': sh, 'hy': hy})
+        for name, (sname, kwname, variants, pool, extra) in TWO.items():
+            for v in variants:
+                if name == 'xy_seq' and v is True and len(sh) != 2:
+                    continue
+                large_cases.append({'f': name, 'var': v, 'nms': LARGE_NMS[name][1:3] if frame else LARGE_NMS[name], 'shape': sh, 'hy': hy})
+    # (4) mode-count thresholds: >= 129 modes in one request
+    many_one = [{'f': n, 'par': ONE[n][2][-1], 'ns': ns, 'shapes': [[5], [3, 4]], 'dtypes': ['float64']}
+                for ns in (list(range(130)), list(range(1, 263, 2))) for n in ONE]
+    many_pairs = {
+        'zernike_nm_seq': [[n, m] for n in range(17) for m in range(-n, n + 1, 2)],
+        'zernike_nm_der_seq': [[n, m] for n in range(17) for m in range(-n, n + 1, 2)],
+        'Q2d_seq': [[n, m] for n in range(10) for m in range(-6, 7)],
+        'xy_seq': [[a, b] for a in range(12) for b in range(12)],
+    }
+    many_two = []
+    for name, (sname, kwname, variants, pool, extra) in TWO.items():
+        for v in variants:
+            cfg = [[[3, 4], [3, 4], 'float64', 'float64']] if (name == 'xy_seq' and v is True) else \
+                [[[5], [5], 'float64', 'float64'], [[3, 4], [3, 4], 'float64', 'float64']]
+            many_two.append({'f': name, 'var': v, 'nms': many_pairs[name], 'cfg': cfg})
+            many_two.append({'f': name, 'var': v, 'nms': many_pairs[name][::-1], 'cfg': cfg})
+    forms_txt = 'tuple, range, ndarray of ' + '/'.join(INT_DTYPES) + ', list of NumPy scalars of each of these types, list of 0-d int64 / uint8 arrays'
+    return [
+        ScopeUnit('order_forms', form_cases, run_forms,
+                  f'argument-form alphabet for the order list: every one-index *_seq x every parameter value x requests range(start, stop, step) in {ORDER_REQS} '
+                  f'and the irregular lists {ORDER_LISTS} x forms {{list (baseline), {forms_txt}}} (range only for the arithmetic progressions) x float64 coordinates of shape '
+                  '(5,), (), (k,4); oracle = scalar-order function at the integer orders; the hygiene layer checks that list / ndarray order arguments are not modified; '
+                  'float-valued orders and one-shot iterators are outside the domain (HEAD raises)', reset=reset_poly_caches, chunk=8),
+        ScopeUnit('pair_forms', pair_cases, run_pair_forms,
+                  'argument-form alphabet for the (n, m) list: every two-index *_seq x keyword variant x lists {one pair (two choices), the pool sorted, reversed, a 3-list with a '
+                  'repeat, the pairs with m >= 0} x forms {list of tuples (baseline), list of lists, tuple of tuples, tuple of lists, list of 1-D int64 arrays, (k,2) ndarray and '
+                  f'pairs of NumPy scalars of int8..int64 and -- when no index is negative and the scalar function accepts unsigned indices: {PAIR_UNSIGNED} -- uint8..uint64}} x float64 coordinates of shape (5,), (3,4), (k,4)',
+                  reset=reset_poly_caches, chunk=2),
+        ScopeUnit('par_forms', par_cases, run_par_forms,
+                  f'argument-form alphabet for the shape parameters: {sorted(PAR_VALUES)} x parameter values {PAR_VALUES["jacobi_seq"]} / {PAR_VALUES["laguerre_seq"]} / '
+                  f'{PAR_VALUES["dickson1_seq"]} x order lists {DTYPE_ORDERS} x forms {sorted(PAR_FORMS)} (integer forms for integer values, unsigned for non-negative ones; '
+                  f'not enumerated: {PAR_FORMS_EXCLUDED}, where the scalar function raises too) on the 1-D point set and a (3,4) grid; oracle = scalar function with the plain values',
+                  reset=reset_poly_caches, chunk=8),
+        ScopeUnit('large_coords', large_cases, run_large,
+                  'coordinate-size threshold alphabet (NOT closed over the data dimension): every *_seq (one parameter value / every keyword variant, one gapped order list per '
+                  f'dimensionality {LARGE_NS} resp. 4 pairs with m = 0, > 0, < 0; two modes on the > 2^20-element grid) x float64 coordinate arrays of shape {sizes}: 1-D sizes 2^k+1 and 2^k+2^(k-1)+3 for k = 7..16'
+                  + ('' if tier == 'quick' else ' (thorough: also 2^17+1 .. 2^20+1, 513x2051, 2049x1027)') +
+                  ', 2-D / 3-D shapes whose element count is not a multiple of a power of two, one grid of more than 2^20 elements; EVERY element of every mode is compared with '
+                  f'the scalar function (a blocked sweep that drops its tail is wrong in the last elements); the hygiene variants (strided / Fortran / reused buffers) run up to {LARGE_HYGIENE} elements',
+                  reset=reset_poly_caches, chunk=3),
+        ScopeUnit('many_orders', many_one, run_one,
+                  'mode-count threshold alphabet, one-index families: orders 0..129 (130 modes) and the odd orders 1..261 (131 modes) in one request, one parameter value, '
+                  'on the 1-D point set and a (3,4) grid, float64; inf/NaN patterns must match the scalar function exactly', reset=reset_poly_caches, chunk=2),
+        ScopeUnit('many_pairs', many_two, run_two,
+                  'mode-count threshold alphabet, two-index families: every valid Zernike (n, m) with n <= 16 (153 pairs), Q2d n <= 9 x |m| <= 6 (130), xy exponents <= 11 (144) '
+                  'in one request, ascending and reversed, every keyword variant, on (5,) and (3,4) float64 coordinates', reset=reset_poly_caches, chunk=1),
     ]
